@@ -28,6 +28,8 @@ THEOREMS = [
     "Nix.C12.paths_kept",
     "Nix.C12.name_still_available",
     "Nix.C12.rejected_name_available",
+    "Nix.C12.auto_array_refused_unchanged",
+    "Nix.C12.multi_tag_refused_unchanged_partial",
 ]
 ASSUMPTIONS = [
     "uuid4 ids are drawn from an abstract fresh supply; no link of the file is named like an id not yet drawn "
@@ -57,8 +59,10 @@ MANIFEST = {
     "level_note": "Trusted: Lean kernel; standard axioms; the correspondence harness and its fault table; h5py/HDF5 link "
                   "semantics modelled, not verified. Partial: dataset contents/extents are leaf nodes of the model, so "
                   "refused data-level calls (DataSet.append, dataset-writing setters, link-list extend) are checked by "
-                  "the oracle only; create_multi_tag with positions/extents given as data is modelled and compared but "
-                  "its roll-back (delete_all of the auto-created arrays) has no theorem yet.",
+                  "the oracle only; create_multi_tag with positions/extents given as data is modelled and compared, and "
+                  "proved unchanged-when-refused except on the paths that delete a successfully auto-created array "
+                  "again (delete_all; full statement kept as Nix.C12.MultiTagRefusedUnchanged, partial theorem proved). "
+                  "name_still_available is proved for create_group/source/data_array/tag (not for multi tags).",
 }
 
 TRACKED12 = TRACKED + ("dimension_type",)
@@ -918,12 +922,18 @@ def oracle(ctx, broken, hints):
             accepted.append(label)
         if fl is not None:
             failures.append(fl)
-    path = ctx.tmpfile("c12-oracle-intro2.nix")
-    f1 = nixio.File.open(path, nixio.FileMode.Overwrite)
-    try:
-        c1 = _quiet(lambda: _build(f1))
-        intro, skipped = _introspected(c1)
-        for label, call, retry in intro:
+    # every introspected case on a file of its own (the closures are bound to the objects of that file)
+    n_intro, skipped, i = None, [], 0
+    while n_intro is None or i < n_intro:
+        path = ctx.tmpfile("c12-oracle-intro.nix")
+        f1 = nixio.File.open(path, nixio.FileMode.Overwrite)
+        try:
+            c1 = _quiet(lambda: _build(f1))
+            intro, skipped = _introspected(c1)
+            n_intro = len(intro)
+            if i >= n_intro:
+                break
+            label, call, retry = intro[i]
             fl, ref = _check_call(f1, c1, label, call, retry)
             evals += 1
             refused += ref
@@ -932,9 +942,14 @@ def oracle(ctx, broken, hints):
             if fl is not None:
                 fl.input = {"kind": "introspected", "label": label}
                 failures.append(fl)
-    finally:
-        f1.close()
-        os.remove(path)
+        finally:
+            try:
+                f1.close()
+            except Exception:       # noqa
+                pass
+            os.remove(path)
+        i += 1
+    intro = list(range(n_intro or 0))
     # (b) hints: the disagreeing histories of the correspondence, replayed with strict snapshots
     for hi, h in enumerate(hints[:6]):
         if h.get("prefix"):
@@ -998,6 +1013,24 @@ def replay_failure(ctx, fj):
             if lab == inp.get("label"):
                 fl, _ = run_case(ctx, lab, call, retry, tag="replay")
                 return fl
+        return None
+    if inp.get("kind") == "introspected":
+        path = ctx.tmpfile("c12-replay-intro.nix")
+        f1 = nixio.File.open(path, nixio.FileMode.Overwrite)
+        try:
+            c1 = _quiet(lambda: _build(f1))
+            for lab, call, retry in _introspected(c1)[0]:
+                if lab == inp.get("label"):
+                    fl, _ = _check_call(f1, c1, lab, call, retry)
+                    if fl is not None:
+                        fl.input = inp
+                    return fl
+        finally:
+            try:
+                f1.close()
+            except Exception:       # noqa
+                pass
+            os.remove(path)
         return None
     if inp.get("kind") == "history":
         ops, outs, _, impl = run_history(ctx, random.Random(0), 0, "mixed", "replay", 0, strict=True,
